@@ -2295,7 +2295,7 @@ fn main() {
             ]);
         }
         if mode == "both" || mode == "threaded" {
-            floors.extend([("threaded_cases", 40u64), ("threaded:decided:commit", 15), ("threaded:decided:abort", 20), ("threaded:same-tx-burst-rounds-with-later-commit", 100), ("threaded:prepare-vs-commit-bursts-committed", 200), ("threaded:prepare-vs-commit-leftover-entries-swept", 20), ("threaded:other-prepare-vs-commit-committed", 200), ("threaded:rollback-vs-other-commit-committed", 200), ("threaded:rollback-vs-other-commit-prepare-refused-while-t1-held-keys", 200)]);
+            floors.extend([("threaded_cases", 40u64), ("threaded:decided:commit", 15), ("threaded:decided:abort", 20), ("threaded:same-tx-burst-rounds-with-later-commit", 100), ("threaded:prepare-vs-commit-bursts-committed", 200), ("threaded:prepare-vs-commit-leftover-entries-swept", 20), ("threaded:other-prepare-vs-commit-committed", 200), ("threaded:rollback-vs-other-commit-committed", 200), ("threaded:rollback-vs-other-commit-prepare-refused-while-t1-held-keys", 200), ("threaded:rollback-vs-other-commit-granted-while-rollback-ran", 100)]);
         }
     }
     let meta = Meta {
